@@ -320,6 +320,8 @@ func intOf(val reflect.Value) int64 {
 	return val.Int()
 }
 
+var marshalerType = reflect.TypeOf((*Marshaler)(nil)).Elem()
+
 func getTagType(v reflect.Value) (byte, reflect.Value) {
 	for {
 		// Load value from interface
@@ -363,6 +365,17 @@ func getTagType(v reflect.Value) (byte, reflect.Value) {
 		} else if _, ok := i.(encoding.TextMarshaler); ok {
 			return TagString, v
 		}
+	}
+
+	// a value whose pointer type writes itself (dynbt.Value held by value): ask the pointer
+	if v.Kind() == reflect.Struct && v.CanInterface() && reflect.PointerTo(v.Type()).Implements(marshalerType) {
+		p := reflect.New(v.Type())
+		if v.CanAddr() {
+			p = v.Addr()
+		} else {
+			p.Elem().Set(v)
+		}
+		return p.Interface().(Marshaler).TagType(), p
 	}
 
 	switch v.Kind() {
